@@ -579,4 +579,12 @@ for _p in ('C13', 'C14'):
 # C15 names Lattice.join/meet among its observation points: the n-ary forms are the lub/glb of C07, hence label-level statements (seeded C15-J)
 PROPS['C15']['units'] += [u for u in ('lattices.join', 'lattices.meet', 'bitsets.Meta.reduce_and', 'bitsets.Meta.reduce_or') if u not in PROPS['C15']['units']]
 PROPS['C09']['units'] += [u for u in ('lemma.bits_subset',) if u not in PROPS['C09']['units']]      # used by lattices.upset_generalization (either spelling of "inside the target")
+# character level of the table format and of the FIMI index rows (contracts/formats_chars_table.py, DESIGN 11.16)
+PROPS['C12']['units'] += [u for u in ('lemma.table.roundtrip', 'formats.table.load_file.written', 'formats.table.dump_file.chars', 'lemma.fimi.roundtrip',
+                                       'lemma.fimi.context_rows', 'formats.fimi.read_concepts_dat.written') if u not in PROPS['C12']['units']]
+PROPS['C12']['proved_part'] += ('; CHARACTER level for the table format: lemma.table.roundtrip / table.load_file.written / table.dump_file.chars -- under REP (at least one object and '
+                                'property, one row of cells per object, no label with a line break, "|", "#" or whitespace at either end, property labels non-empty) '
+                                'Table.loads(Table.dumps(...)) is the given triple for every indent; FIMI index rows: the tuples read are the index lists written '
+                                '(empty set = empty line); new text lemmas (ljust / partition / % on the fragment used / csv fields) proved in Lean (lemmas/Text.lean)')
+PROPS['C12']['bounded_part'] = PROPS['C12']['bounded_part'].replace('the characters of the other text formats (table, csv quoting, ', 'the characters of the other text formats (csv quoting, ')
 NOT_APPLICABLE = {}
